@@ -74,6 +74,38 @@ def match_types(writer_type, reader_type, named_schemas):
     return False
 
 
+def _named_type_definition(schema, names):
+    """Returns the definition when schema is a reference to a named type"""
+    if isinstance(schema, str) and schema not in AVRO_TYPES:
+        return names.get(schema, schema)
+    return schema
+
+
+def match_reader_union_branch(w_schema, r_union, named_schemas):
+    """Returns the branch of the reader's union that the writer's schema
+    resolves to: the first branch of the same type (for named types one with
+    the very same full name is preferred over one that only matches by
+    unqualified name or alias), otherwise the first branch that the writer's
+    schema can be promoted to. Returns None when there is no such branch"""
+    w_def = _named_type_definition(w_schema, named_schemas["writer"])
+    w_type = extract_record_type(w_def)
+    same_type = []
+    for schema in r_union:
+        r_def = _named_type_definition(schema, named_schemas["reader"])
+        if extract_record_type(r_def) == w_type and match_types(
+            w_schema, schema, named_schemas
+        ):
+            if w_type not in NAMED_TYPES or r_def["name"] == w_def["name"]:
+                return schema
+            same_type.append(schema)
+    if same_type:
+        return same_type[0]
+    for schema in r_union:
+        if match_types(w_schema, schema, named_schemas):
+            return schema
+    return None
+
+
 def match_schemas(w_schema, r_schema, named_schemas):
     error_msg = f"Schema mismatch: {w_schema} is not {r_schema}"
     if isinstance(w_schema, list):
@@ -83,12 +115,18 @@ def match_schemas(w_schema, r_schema, named_schemas):
     elif isinstance(r_schema, list):
         # If the reader is a union, ensure one of the new schemas is the same
         # as the writer
-        for schema in r_schema:
-            if match_types(w_schema, schema, named_schemas):
-                return schema
-        else:
+        schema = match_reader_union_branch(w_schema, r_schema, named_schemas)
+        if schema is None:
             raise SchemaResolutionError(error_msg)
+        if isinstance(w_schema, dict):
+            # the writer's definition is read with the reader's definition
+            schema = _named_type_definition(schema, named_schemas["reader"])
+        return schema
     else:
+        # A named type can be defined in place by one side and referred to by
+        # name by the other
+        if isinstance(w_schema, dict) and w_schema["type"] in NAMED_TYPES:
+            r_schema = _named_type_definition(r_schema, named_schemas["reader"])
         # Check for dicts as primitive types are just strings
         if isinstance(w_schema, dict):
             w_type = w_schema["type"]
@@ -402,6 +440,18 @@ def skip_map(decoder, writer_schema, named_schemas):
     decoder.read_map_end()
 
 
+def _branch_name(idx_schema, idx_reader_schema, named_schemas):
+    """Full name of the named type selected in a union: the reader's when
+    there is a reader schema; either side may be a definition or a reference"""
+    if idx_reader_schema:
+        schema, names = idx_reader_schema, named_schemas["reader"]
+    else:
+        schema, names = idx_schema, named_schemas["writer"]
+    if isinstance(schema, dict):
+        return schema["name"]
+    return names[schema]["name"]
+
+
 def read_union(
     decoder,
     writer_schema,
@@ -429,19 +479,17 @@ def read_union(
             else:
                 raise SchemaResolutionError(msg)
         else:
-            for schema in reader_schema:
-                if match_types(idx_schema, schema, named_schemas):
-                    idx_reader_schema = schema
-                    result = read_data(
-                        decoder,
-                        idx_schema,
-                        named_schemas,
-                        schema,
-                        options,
-                    )
-                    break
-            else:
+            schema = match_reader_union_branch(idx_schema, reader_schema, named_schemas)
+            if schema is None:
                 raise SchemaResolutionError(msg)
+            idx_reader_schema = schema
+            result = read_data(
+                decoder,
+                idx_schema,
+                named_schemas,
+                schema,
+                options,
+            )
     else:
         result = read_data(decoder, idx_schema, named_schemas, None, options)
 
@@ -452,33 +500,17 @@ def read_union(
     if return_named_type_override and is_single_name_union(writer_schema):
         return result
     elif return_named_type and extract_record_type(idx_schema) in NAMED_TYPES:
-        schema_name = (
-            idx_reader_schema["name"] if idx_reader_schema else idx_schema["name"]
-        )
-        return (schema_name, result)
+        return (_branch_name(idx_schema, idx_reader_schema, named_schemas), result)
     elif return_named_type and extract_record_type(idx_schema) not in AVRO_TYPES:
         # idx_schema is a named type
-        schema_name = (
-            named_schemas["reader"][idx_reader_schema]["name"]
-            if idx_reader_schema
-            else named_schemas["writer"][idx_schema]["name"]
-        )
-        return (schema_name, result)
+        return (_branch_name(idx_schema, idx_reader_schema, named_schemas), result)
     elif return_record_name_override and is_single_record_union(writer_schema):
         return result
     elif return_record_name and extract_record_type(idx_schema) == "record":
-        schema_name = (
-            idx_reader_schema["name"] if idx_reader_schema else idx_schema["name"]
-        )
-        return (schema_name, result)
+        return (_branch_name(idx_schema, idx_reader_schema, named_schemas), result)
     elif return_record_name and extract_record_type(idx_schema) not in AVRO_TYPES:
         # idx_schema is a named type
-        schema_name = (
-            named_schemas["reader"][idx_reader_schema]["name"]
-            if idx_reader_schema
-            else named_schemas["writer"][idx_schema]["name"]
-        )
-        return (schema_name, result)
+        return (_branch_name(idx_schema, idx_reader_schema, named_schemas), result)
     else:
         return result
 
@@ -665,11 +697,13 @@ def read_data(
         else:
             return data
     else:
+        if isinstance(reader_schema, str):
+            reader_schema = named_schemas["reader"].get(reader_schema)
         return read_data(
             decoder,
             named_schemas["writer"][record_type],
             named_schemas,
-            named_schemas["reader"].get(reader_schema),
+            reader_schema,
             options,
         )
 
